@@ -85,6 +85,29 @@ func runC20(r *Report, tier string) {
 				if !P.isStructureType(stt) {
 					continue
 				}
+				// a composite literal assigned in place to the receiver is a
+				// whole-value store compiled field by field
+				if fn.Signature.Recv() != nil {
+					whole := false
+					for _, w := range P.receiverWrites(fn) {
+						if !w.complete || w.fn != fn {
+							continue
+						}
+						for _, s2 := range w.stores {
+							if s2 == st {
+								whole = true
+							}
+						}
+					}
+					if whole {
+						if st == firstFieldStore(P, fn, st) {
+							nStores++
+							o := r.ob("R20.1", shortFn(fn)+":whole-store:"+shortType(stt), fn, st, "whole-value store of a structure type only in the decoder family")
+							o.check(decFam[fn], "function is in the decoder family", "a structure value (including its Signature) is overwritten outside the decoders")
+						}
+						continue
+					}
+				}
 				fname := stt.Underlying().(*types.Struct).Field(fa.Field).Name()
 				if fname != "Signature" && fname != "Signatures" {
 					continue
@@ -267,6 +290,18 @@ func delegCall(e *Term) *Term {
 		return e
 	}
 	return nil
+}
+
+// firstFieldStore: the first store of the in-place literal group st belongs to.
+func firstFieldStore(P *Prog, fn *ssa.Function, st *ssa.Store) *ssa.Store {
+	for _, w := range P.receiverWrites(fn) {
+		for _, s2 := range w.stores {
+			if s2 == st {
+				return w.stores[0]
+			}
+		}
+	}
+	return st
 }
 
 // pairDelegated: (b, e) are results 0 and 1 of the same call.
